@@ -410,7 +410,7 @@ fn gen_op(r: &mut Rng, root: &std::path::Path, n_cks: usize, step: u64) -> Value
     }
     if k < 9 {
         let p = *r.pick(&FILES[..]);
-        let how = *r.pick(&["write", "write", "write", "delete", "delete", "mkdir", "to_dir", "to_file", "rmtree"]);
+        let how = *r.pick(&["write", "write", "write", "delete", "delete", "mkdir", "to_dir", "to_file", "to_file", "to_file", "rmtree"]);
         let path = match how {
             "to_file" | "rmtree" => r.pick(&["d", "d/e", "n", "m", "a.txt", "n/o"]).to_string(),
             "mkdir" => r.pick(&["newdir", "d/sub", "m"]).to_string(),
